@@ -408,6 +408,24 @@ func driveSign(c *ctx) {
 			r, s, v, err = priv.SignRaw(secec.RFC6979SHA256(), digest)
 			c.E("sig.Raw", "d", h32(d), "digest", hx(digest), "rng", "rfc6979", "ok", err == nil, "r", scHexOr(r), "s", scHexOr(s), "v", int(v))
 		}
+		// the signer's key object keeps verifying its own signatures after OTHER objects were derived from it
+		// (a BIP-340 key pair, copies of its point and scalar that the caller then modifies)
+		{
+			dg := digests[ki%len(digests)]
+			r, s, _, err := priv.SignRaw(secec.RFC6979SHA256(), dg)
+			if err == nil {
+				_ = bitcoin.NewSchnorrPrivateKeyFromECDSA(priv)
+				_ = bitcoin.NewSchnorrPublicKeyFromECDSA(priv.PublicKey())
+				pt := priv.PublicKey().Point()
+				pt.Negate(pt)
+				sc := priv.Scalar()
+				sc.Negate(sc)
+				rb, sb := new(big.Int).SetBytes(r.Bytes()), new(big.Int).SetBytes(s.Bytes())
+				c.E("vfy.Raw", "q", hx(priv.PublicKey().Bytes()), "digest", hx(dg), "r", h32(rb), "s", h32(sb), "out", priv.PublicKey().VerifyRaw(dg, r, s), "after_derive", true)
+				r2, s2, _, err2 := priv.SignRaw(secec.RFC6979SHA256(), dg)
+				c.E("sig.Raw", "d", h32(d), "digest", hx(dg), "rng", "rfc6979", "ok", err2 == nil, "r", scHexOr(r2), "s", scHexOr(s2), "v", 0+int(func() byte { _, _, v, _ := priv.SignRaw(secec.RFC6979SHA256(), dg); return v }()))
+			}
+		}
 		// digest lengths 0..64 through SignRaw (nil options semantics: >= 32 bytes admissible)
 		for _, l := range []int{0, 1, 31, 32, 33, 47, 48, 63, 64, 65} {
 			dg := randBytes(rng, l)
